@@ -5,6 +5,7 @@ cd "$(dirname "$0")"
 # the generated tables always reflect /repo's current working tree
 PYTHONHASHSEED=0 PYTHONPATH=/repo/src /venv/bin/python harness/gen_tables.py | grep -v unchanged
 PYTHONHASHSEED=0 PYTHONPATH=/repo/src /venv/bin/python harness/gen_advances.py
+PYTHONHASHSEED=0 PYTHONPATH=/repo/src /venv/bin/python harness/gen_example.py
 mkdir -p ocaml/gen coq/Top
 cd coq
 {
